@@ -47,7 +47,7 @@ static Bytes make_reply(uint16_t id, int dom, int look, int server, int kind) {
   return b;
 }
 
-struct Look { uint16_t id = 0; int dom = 0; int state = 0 /*0 pending 1 done 2 cancelled*/; int calls = 0; int status = -1; std::vector<Addr> addrs; bool failed[kMaxServers] = {false, false, false}; int nfail = 0; int age = 0; };
+struct Look { uint16_t id = 0; int dom = 0; int state = 0 /*0 pending 1 done 2 cancelled*/; int calls = 0; int status = -1; std::vector<Addr> addrs; bool failed[kMaxServers] = {false, false, false}; int nfail = 0; int age = 0; bool followup = false /*its callback issues one more lookup*/; };
 static long g_dup_counted = 0, g_wrongq_accepted = 0, g_wrongq_ignored = 0, g_timeouts = 0, g_allfail = 0, g_success = 0, g_ignored_ok = 0;
 
 int main(int argc, char **argv) {
@@ -57,14 +57,17 @@ int main(int argc, char **argv) {
   hx::Explorer<Op> ex; ex.name = "lookups-" + engine + "-" + std::to_string(kMaxLookups) + "lookups-" + std::to_string(kServers) + "servers"; ex.deadline_s = hx::deadline_from_env(600);
   if (getenv("C15_DEADLINE_MONO")) ex.deadline_s = atof(getenv("C15_DEADLINE_MONO"));   // absolute CLOCK_MONOTONIC seconds (set by check.py)
   ex.show = [](const Op &o) { char b[64];
-    switch (o.k) { case REQ: snprintf(b, sizeof b, "request(%s)", kDomains[o.i]); break; case CANCEL: snprintf(b, sizeof b, "cancel(#%d)", o.i); break;
+    switch (o.k) { case REQ: snprintf(b, sizeof b, o.r ? "request(%s,callback-issues-a-followup-lookup)" : "request(%s)", kDomains[o.i]); break; case CANCEL: snprintf(b, sizeof b, "cancel(#%d)", o.i); break;
       case REPLY: if (o.r == UNKNOWN_ID) snprintf(b, sizeof b, "reply(unknown-id,from-s%d)", o.s); else snprintf(b, sizeof b, "reply(#%d,from-s%d,%s)", o.i, o.s, rkN[o.r]); break;
-      default: snprintf(b, sizeof b, "tick(+1s)"); }
+      default: snprintf(b, sizeof b, "tick(+%ds)", o.i > 0 ? o.i : 1); }
     return std::string(b); };
   ex.menu = [&](const std::vector<Op> &h) {
     std::vector<Op> m; int issued = 0; for (auto &o : h) if (o.k == REQ) issued++;
+    static const bool lane = getenv("C15_FOLLOWUP") != nullptr;    // lane: lookups whose callback issues one more lookup (retry-on-timeout idiom), 5-tick advances
     if (issued < kMaxLookups) for (int d = 0; d < 2; d++) m.push_back({REQ, d, 0, 0});
-    m.push_back({TICK, 0, 0, 0});
+    if (lane && issued < kMaxLookups) m.push_back({REQ, 0, 0, 1});
+    m.push_back({TICK, 1, 0, 0});
+    if (lane) m.push_back({TICK, kTimeoutTicks, 0, 0});
     for (int i = 0; i < issued; i++) { m.push_back({CANCEL, i, 0, 0});
       for (int s = 0; s < kServers; s++) for (int r = 0; r < NRK; r++) if (r != UNKNOWN_ID) m.push_back({REPLY, i, s, r}); }
     m.push_back({REPLY, 0, 0, UNKNOWN_ID});
@@ -84,11 +87,15 @@ int main(int argc, char **argv) {
       std::vector<int> want_status(L.size(), -2); int either = -1;   // either = lookup that may or may not complete (duplicate server failure)
       switch (o.k) {
         case REQ: {
-          size_t before = g_sent.size(); Look l; l.dom = o.i; L.push_back(l); size_t idx = L.size() - 1;
-          uint16_t id = dns->request(network::DomainName(kDomains[o.i]), [&L, idx, &fail](const DnsRequest::Result &r) {
+          size_t before = g_sent.size(); Look l; l.dom = o.i; l.followup = o.r != 0; L.push_back(l); size_t idx = L.size() - 1;
+          uint16_t id = dns->request(network::DomainName(kDomains[o.i]), [&L, idx, &fail, dns](const DnsRequest::Result &r) {
             Look &x = L[idx]; x.calls++; x.status = (int)r.status; x.addrs.clear();
             for (auto &a : r.a_vec) { uint32_t v = a.ip; Addr ad; memcpy(ad.data(), &v, 4); x.addrs.push_back(ad); }
-            if (x.state == 2) fail("dns-lookup-callback-invoked-after-cancel"); });
+            if (x.state == 2) fail("dns-lookup-callback-invoked-after-cancel");
+            if (x.followup && x.calls == 1 && L.size() < 8) {       // a new lookup issued from inside a completion (possibly timeout) callback
+              Look n; n.dom = 1; L.push_back(n); size_t j = L.size() - 1;
+              L[j].id = dns->request(network::DomainName(kDomains[1]), [&L, j, &fail](const DnsRequest::Result &r2) { Look &y = L[j]; y.calls++; y.status = (int)r2.status; y.addrs.clear();
+                for (auto &a : r2.a_vec) { uint32_t v = a.ip; Addr ad; memcpy(ad.data(), &v, 4); y.addrs.push_back(ad); } if (y.state == 2) fail("dns-lookup-callback-invoked-after-cancel"); }); } });
           L[idx].id = id; want_calls.push_back(0); want_status.push_back(-2);
           if (id == 0) { fail("dns-lookup-request-returned-id-0"); break; }
           for (size_t j = 0; j < idx; j++) if (L[j].id == id) fail("dns-lookup-request-id-reused-while-known");
@@ -114,11 +121,14 @@ int main(int argc, char **argv) {
           if (either >= 0) { Look &e = L[either]; if (e.calls == want_calls[either] + 1) { want_calls[either]++; if (o.r == SERVFAIL) g_dup_counted++; else g_wrongq_accepted++; } else { want_status[either] = -2; if (o.r == OK_WRONG_QUESTION) g_wrongq_ignored++; } }
         } break;
         case TICK: {
-          for (size_t i = 0; i < L.size(); i++) if (L[i].state == 0) { L[i].age++; if (L[i].age == kTimeoutTicks) { want_calls[i]++; want_status[i] = (int)DnsRequest::Result::Status::kTimeout; } }
-          g_mono_ms += 1000; loop->runNext([] {}); loop->runLoop(event::Loop::Mode::kOnce);
+          for (int tk = 0; tk < (o.i > 0 ? o.i : 1); tk++) {
+            while (want_calls.size() < L.size()) { want_calls.push_back(0); want_status.push_back(-2); }     // lookups born inside a callback of an earlier tick
+            for (size_t i = 0; i < L.size(); i++) if (L[i].state == 0 && L[i].calls == want_calls[i]) { L[i].age++; if (L[i].age == kTimeoutTicks) { want_calls[i]++; want_status[i] = (int)DnsRequest::Result::Status::kTimeout; } }
+            g_mono_ms += 1000; loop->runNext([] {}); loop->runLoop(event::Loop::Mode::kOnce); }
         } break;
       }
       if (!viol.empty()) break;
+      while (want_calls.size() < L.size()) { want_calls.push_back(0); want_status.push_back(-2); }
       // compare: exactly the expected callbacks happened during this op, with the expected status / content
       for (size_t i = 0; i < L.size(); i++) {
         Look &l = L[i];
@@ -143,7 +153,7 @@ int main(int argc, char **argv) {
     std::string c = "R:"; for (auto &kv : dns->requests_) c += std::to_string(idx_of(kv.first)) + "." + std::to_string(kv.second.response_count) + ",";
     c += "|W:"; { auto *it = dns->timeout_monitor_.curr_item_; for (int k = 0; k < kTimeoutTicks && it; k++, it = it->next) { for (auto v : it->items) c += std::to_string(idx_of(v)); c += "/"; } }
     c += "|vn" + std::to_string(dns->timeout_monitor_.value_number_) + "|t" + std::to_string((int)dns->timeout_monitor_.sp_timer_->isEnabled()) + "|u" + std::to_string((int)dns->udp_.sp_socket_ev_->isEnabled()) + "|id" + std::to_string(dns->req_id_alloc_);
-    c += "|M:"; for (auto &l : L) { c += std::to_string(l.state) + std::to_string(l.calls) + (l.state == 0 ? std::to_string((int)l.failed[0]) + std::to_string((int)l.failed[1]) + std::to_string((int)l.failed[2]) + std::to_string(std::min(l.nfail, kServers)) + std::to_string(l.age) : std::string("")) + "d" + std::to_string(l.dom) + ","; }
+    c += "|M:"; for (auto &l : L) { c += std::to_string(l.state) + std::to_string(l.calls) + (l.state == 0 ? std::to_string((int)l.failed[0]) + std::to_string((int)l.failed[1]) + std::to_string((int)l.failed[2]) + std::to_string(std::min(l.nfail, kServers)) + std::to_string(l.age) : std::string("")) + "d" + std::to_string(l.dom) + (l.followup && l.calls == 0 ? "F" : "") + ","; }    // a pending follow-up obligation is part of the state
     // destruction must not invoke anything
     std::vector<int> calls; for (auto &l : L) calls.push_back(l.calls);
     delete dns; loop->runNext([] {}); loop->runLoop(event::Loop::Mode::kOnce); delete loop;
